@@ -8,7 +8,8 @@ import time
 
 from . import env
 
-KF_PATH = os.path.join(env.VERIF, "known_findings.json")
+# VERIF_KF_FILE lets a self-test run against a scratch copy with a reduced list (e.g. to try a repair); registered commands never set it
+KF_PATH = os.environ.get("VERIF_KF_FILE") or os.path.join(env.VERIF, "known_findings.json")
 
 
 def load_kf():
